@@ -114,7 +114,7 @@ func c07grid(thorough bool) []num {
 	F(math.Copysign(0, -1), 0, 5e-324, -5e-324, 1, -1, 0.5, 2, 3, float64(p53), -float64(p53), float64(p53)+2, 9223372036854775808.0, -9223372036854775808.0,
 		18446744073709551616.0, math.MaxFloat64, -math.MaxFloat64, math.Inf(1), math.Inf(-1), math.NaN())
 	{
-		quickK := map[int]bool{0: true, 1: true, 31: true, 32: true, 52: true, 53: true, 54: true, 62: true, 63: true, 64: true}
+		quickK := map[int]bool{0: true, 1: true, 2: true, 3: true, 7: true, 8: true, 15: true, 16: true, 23: true, 24: true, 30: true, 31: true, 32: true, 33: true, 40: true, 47: true, 48: true, 51: true, 52: true, 53: true, 54: true, 55: true, 56: true, 60: true, 61: true, 62: true, 63: true, 64: true}
 		for k := 0; k <= 64; k++ {
 			if !thorough && !quickK[k] {
 				continue
